@@ -24,6 +24,21 @@ CLAIMED = {
    text="TLC checks Clean = Expected, idempotence and that exactly the owned files disappear, for every tree of depth <= 3 with <= 2 entries per directory (and depth 2 with 4 entries in the thorough tier), for a target given as a path, as '.' and missing. Every such tree is created on a real file system, cleaned twice by the real CleanTargetDir, and listing and file bytes are compared with the model. Random trees with a pool of real file names (names that merely contain the generated suffix, upper-case manifest names, ...) are cleaned and the observed result validated by TLC against the specification.",
    note="already-empty directories are removed (the repository's own tests expect it); symlinks and permission errors are not modelled; regeneration is exercised under C12",
    design="5/C20"),
+ "C14": dict(
+   technique="TLA+ spec Tunnel.tla (client send / adversarial edit / server receive) model-checked by TLC; every exchange of the bound replayed through the real request constructors, real multipart bytes, DecodeTunnelledQuery and the real server; random long exchanges trace-validated by TLC",
+   text="TLC checks on the tunnelling state machine that a query not longer than the threshold is sent untouched, that tunnelling happens exactly above the threshold, that the de-tunnelled request equals the original field by field, and that each listed damage of a tunnelled request is rejected. Each (verb, query, body, threshold, damage) is replayed: the request is built by NewGetRequest/NewDeleteRequest/NewJsonRequest, damaged at byte level, decoded by DecodeTunnelledQuery and compared field by field with the untunnelled reference request, then sent through a real server whose resource records what it saw. Random exchanges with long queries are logged and validated by TLC.",
+   note="multipart framing itself is the standard library's; Content-Length and Go-internal request fields are not compared; POST/PUT without a body cannot be built through the public constructors and are skipped",
+   design="5/C14"),
+ "C15": dict(
+   technique="TLA+ spec Url.tla (declarative expected path vs operational construction, with the pre-repair algorithm kept as OperLegacy and refuted by TLC) model-checked by TLC; every case replayed through NewGetRequest/NewJsonRequest; random contexts and keys encoded by the real escapers trace-validated by TLC",
+   text="TLC compares the operational URL construction with the declarative one (context minus a trailing root segment, then the resource path, no normalisation) for every context of 0-3 segments over {root, root-with-suffix, prefix-of-root, suffix-is-root, other} and every resource path with dot-segment, empty, escaped and root-named keys. Every case is replayed on the real client and URL.String(), EscapedPath() and RawQuery compared byte for byte. Random cases with keys of arbitrary bytes encoded by the real ROR2 path/query escapers are validated by TLC against ExpectedPath.",
+   note="contexts holding the root name as a complete non-final segment are unspecified and skipped; only SimpleHostnameResolver bases; what net/http does to the URL afterwards is out of scope",
+   design="5/C15"),
+ "C08": dict(
+   technique="TLA+ spec Server.tla (Invoke / Wrap / Respond / ClientDecode pipeline with the held error object as state) model-checked by TLC; every (adapter, outcome) replayed over real connections with the real generic client functions; recorded exchanges trace-validated by TLC against the same actions",
+   text="TLC checks, for every adapter kind and every outcome of resource code (value, overridden status, nil entity, error response with each subset of fields, other error, panic), that status, error header and the client's result are the prescribed ones and that the error object held by the resource is never modified. Each case is run through a real httptest server (an escaped panic shows as a broken connection) and the real client; the held object is compared before/after; per-key batch errors are checked under their key. Each recorded exchange is replayed by TLC on the specification's own actions.",
+   note="harness-defined entity/path types with the generic Register*/client functions (not generated bindings); the root module's ErrorResponse has fewer fields, rows using the others are skipped there",
+   design="5/C08"),
 }
 
 NOT_YET = {}
